@@ -287,6 +287,8 @@ Record mcase := {
   m_datahash : string;        (* the datahash line of the cached control section *)
   m_dat_exists : bool;        (* a file exists at cache_member_path before the call *)
   m_tar_created : bool;       (* ... and the uncompressed tar next to it exists afterwards *)
+  m_fresh : option (string * bool);  (* a fresh fetch of the package: the data section's hex sha256, and
+                                        whether verifyExpanded let the datahash pass *)
   m_changed : list string
 }.
 
@@ -294,6 +296,11 @@ Definition check_member (c : mcase) : list string :=
   let roots := map la (m_roots c) in
   tag_if (negb (Bool.eqb (cached_rebuilds (la (m_datahash c)) (m_dat_exists c)) (m_tar_created c)))
     "mismatch:cached-package-rebuild" ++
+  match m_fresh c with
+  | Some (got, accepted) =>
+      tag_if (negb (Bool.eqb (verify_datahash_accepts [la (m_datahash c)] (la got)) accepted)) "mismatch:verify-datahash"
+  | None => []
+  end ++
   match escapes roots (map la (m_changed c)) with
   | [] => []
   | _ => ["viol:cache-member-escapes-cache-dir"]
